@@ -207,7 +207,7 @@ def jolt_reference(A, B, lift, clsA, clsB):
 
 
 def measure_distance(rid, A, B, lift, call, tol, clsA=None, clsB=None, extra=None, proxy=True, scalar_only=False,
-                     zero_exact=True):
+                     zero_exact=True, colliders=None):
     """Run one distance query `call(colliderA, colliderB) -> (d, a, b)` and measure every residual the judge needs."""
     s = lift[0]
     L = scene_L(A, B, lift)
@@ -221,7 +221,8 @@ def measure_distance(rid, A, B, lift, call, tol, clsA=None, clsB=None, extra=Non
         rec.update(cert)
     if extra:
         rec.update(extra)
-    ca, cb = A.build(lift, clsA), B.build(lift, clsB)
+    # colliders may be handed in so that several queries run on the same objects (as an application would)
+    ca, cb = colliders if colliders is not None else (A.build(lift, clsA), B.build(lift, clsB))
     if proxy:
         ca, cb = Proxy.wrap(ca), Proxy.wrap(cb)
     install_observers()
